@@ -642,17 +642,17 @@ const smtHeader = `(declare-sort Txt 0)
 
 // Uninterpreted functions that may be declared on demand (name -> declaration).
 var ufDecls = map[string]string{
-	"mPow":   "(declare-fun mPow ((_ FloatingPoint 11 53) (_ FloatingPoint 11 53)) (_ FloatingPoint 11 53))",
-	"mMod":   "(declare-fun mMod ((_ FloatingPoint 11 53) (_ FloatingPoint 11 53)) (_ FloatingPoint 11 53))",
-	"mSin":   "(declare-fun mSin ((_ FloatingPoint 11 53)) (_ FloatingPoint 11 53))",
-	"mCos":   "(declare-fun mCos ((_ FloatingPoint 11 53)) (_ FloatingPoint 11 53))",
-	"mTan":   "(declare-fun mTan ((_ FloatingPoint 11 53)) (_ FloatingPoint 11 53))",
-	"fmtF":   "(declare-fun fmtF ((_ FloatingPoint 11 53)) Txt)",
-	"fmtI":   "(declare-fun fmtI ((_ BitVec 64)) Txt)",
-	"fmtQ":   "(declare-fun fmtQ (Txt) Txt)",
-	"txtNFC": "(declare-fun txtNFC (Txt) Txt)",
-	"txtTrim": "(declare-fun txtTrim (Txt) Txt)",
-	"txtCat": "(declare-fun txtCat (Txt Txt) Txt)",
-	"txtRune": "(declare-fun txtRune ((_ BitVec 32)) Txt)",
+	"mPow":     "(declare-fun mPow ((_ FloatingPoint 11 53) (_ FloatingPoint 11 53)) (_ FloatingPoint 11 53))",
+	"mMod":     "(declare-fun mMod ((_ FloatingPoint 11 53) (_ FloatingPoint 11 53)) (_ FloatingPoint 11 53))",
+	"mSin":     "(declare-fun mSin ((_ FloatingPoint 11 53)) (_ FloatingPoint 11 53))",
+	"mCos":     "(declare-fun mCos ((_ FloatingPoint 11 53)) (_ FloatingPoint 11 53))",
+	"mTan":     "(declare-fun mTan ((_ FloatingPoint 11 53)) (_ FloatingPoint 11 53))",
+	"fmtF":     "(declare-fun fmtF ((_ FloatingPoint 11 53)) Txt)",
+	"fmtI":     "(declare-fun fmtI ((_ BitVec 64)) Txt)",
+	"fmtQ":     "(declare-fun fmtQ (Txt) Txt)",
+	"txtNFC":   "(declare-fun txtNFC (Txt) Txt)",
+	"txtTrim":  "(declare-fun txtTrim (Txt) Txt)",
+	"txtCat":   "(declare-fun txtCat (Txt Txt) Txt)",
+	"txtRune":  "(declare-fun txtRune ((_ BitVec 32)) Txt)",
 	"txtEmpty": "(declare-fun txtEmpty () Txt)",
 }
